@@ -23,7 +23,7 @@ func init() {
 				"Not decided: symlink/hard-link resolution (kernel wd identity); sequences as such.",
 			Rule:        "one obligation per table mutation and calling root, per Add-flow effect, per Remove delete, per path-table key; non-trivial = the mutation is reachable",
 			Assumptions: []string{"go/types + go/ssa", "callbacks run synchronously in their caller", "production folding (E-F)"},
-			MinObl:      15,
+			MinObl:      30,
 		},
 		Configs: tiered(linuxQuick, linuxAll),
 		Run:     runC04,
